@@ -574,7 +574,7 @@ pub fn eval(case: &Case) -> Vec<Fail> {
 
 pub fn run(tier: Tier) -> i32 {
     let ctx = Ctx::new("C11", tier, "model_checking");
-    let depth = tier.pick(4, 5);
+    let depth = tier.pick(4, 6);
     let ops = all_ops();
     let mut total = Stats::default();
     let mut states = 0u64;
